@@ -4,6 +4,7 @@ import Driver.ProcStream
 import Driver.ThrStream
 import Driver.LogStream
 import Driver.DetStream
+import Driver.WinStream
 open Driver
 
 def main (args : List String) : IO UInt32 := do
@@ -18,4 +19,6 @@ def main (args : List String) : IO UInt32 := do
   | ["mon", "loglimiter"] => runMon LogStream.monInit LogStream.monStep LogStream.monFinish; return 0
   | ["model", "detector"] => runModel DetStream.init DetStream.step; return 0
   | ["mon", "detector"] => runMon DetStream.monInit DetStream.monStep DetStream.monFinish; return 0
+  | ["model", "window"] => runModel WinStream.init WinStream.step; return 0
+  | ["mon", "window"] => runMon WinStream.init WinStream.monStep WinStream.monFinish; return 0
   | _ => IO.eprintln "usage: driver model|mon <stream>"; return 2
